@@ -1586,6 +1586,19 @@ def _scalarise_records(mods: dict[str, Module], inv: dict, log: list[str]) -> No
                                 continue
                             tgt = st.targets[0] if isinstance(st, ast.Assign) and len(st.targets) == 1 else st.target if isinstance(st, ast.AnnAssign) and st.value is not None else None
                             c = ctor(st.value) if tgt is not None and isinstance(tgt, ast.Name) else None
+                            # `r = Rec(*producer(...))`: the record is filled positionally from a tuple - read as `r__f1, .., r__fn = producer(...)`
+                            v_ = st.value if tgt is not None and isinstance(tgt, ast.Name) else None
+                            if c is None and isinstance(v_, ast.Call) and not v_.keywords and len(v_.args) == 1 and isinstance(v_.args[0], ast.Starred):
+                                nm_ = v_.func.id if isinstance(v_.func, ast.Name) else v_.func.attr if isinstance(v_.func, ast.Attribute) else None
+                                if nm_ in recs and tgt.id not in params and _record_local_ok(fn, tgt.id, st, [f for f, _ in recs[nm_]]):
+                                    names = [f for f, _ in recs[nm_]]
+                                    fresh = {f: f"{tgt.id}__{f}" for f in names}
+                                    unpack = ast.Assign(targets=[ast.Tuple(elts=[ast.Name(id=fresh[f], ctx=ast.Store()) for f in names], ctx=ast.Store())], value=v_.args[0].value)
+                                    b[i] = ast.fix_missing_locations(ast.copy_location(unpack, st))
+                                    _RecordUses(tgt.id, names, fresh).visit(fn)
+                                    total += 1
+                                    changed = True
+                                    break
                             if c is not None and tgt.id not in params and _record_local_ok(fn, tgt.id, st, [f for f, _ in recs[c[0]]]):
                                 names = [f for f, _ in recs[c[0]]]
                                 fresh = {f: f"{tgt.id}__{f}" for f in names}
